@@ -8,7 +8,7 @@ from props import _c_anova as A
 from props import c15 as L
 
 RULE = ("hybrid tensors (per-mode TT|CP x factor none|narrow|square|wide, ranks <= 3; int and float streams) with 1..4 modes of size 1..4; "
-        "marginals None, or per mode None | positive vector (normalised, or scaled by an arbitrary positive constant); one case checks, "
+        "marginals None, or per mode None | positive vector (normalised, or scaled by an arbitrary positive constant; 30%: one vector OBJECT shared by all modes of its size); one case checks, "
         "against the inclusion-exclusion ANOVA of the dense array: (A) every entry of anova_decomposition(t, m) (entry j with support "
         "S={n: j_n>0} is f_S at x_S=j_S-1), (B) undo(anova) = t, (C) for EVERY subset S the term undo(mask(anova, indicator S)) — the "
         "indicator built as presence&absence, as only(all(S)) or as a rounded formula — equals the brute-force term, is constant along the "
@@ -48,6 +48,11 @@ def gen_marginals(rng, shape, p_none=0.3, p_zero=0.0):
             c = rng.choice([0.01, 0.5, 3.0, 17.0, 1000.0])
             v = [a / s * c for a in v]
         out.append(v)
+    if rng.random() < 0.3:           # one vector object shared by every mode of that size (marginals=[w]*N): see to_torch_marginals
+        first = {}
+        for k, v in enumerate(out):
+            if v is not None:
+                out[k] = first.setdefault(len(v), v)
     return out
 
 
@@ -70,7 +75,8 @@ def marg_kind(m):
 def to_torch_marginals(m):
     if m is None:
         return None
-    return [None if v is None else torch.tensor(v, dtype=torch.float64) for v in m]
+    shared = {}      # equal vectors are handed over as ONE torch object (what a caller writing [w] * N passes)
+    return [None if v is None else shared.setdefault(tuple(v), torch.tensor(v, dtype=torch.float64)) for v in m]
 
 
 def cases(rng, tier):
